@@ -10,7 +10,7 @@ package tblock
 //@   requires tf != nil && record != nil && forall j int :: 0 <= j && j < len(tf.steps) ==> tf.steps[j] != nil
 //@   modifies everything
 //@   preserves mem(base.LogTransformFunc), mem(base.LogFieldLocator), base.LogRecord.Fields
-//@   ensures[runs-steps-first-drop-wins] exists k int :: 0 <= k && k <= len(tf.steps) && base.tlogn == old(base.tlogn) + k
+//@   ensures[runs-steps-first-drop-wins] exists k int :: 0 <= k && k <= old(len(tf.steps)) && base.tlogn == old(base.tlogn) + k
 //@        && (forall j int :: 0 <= j && j < k ==> base.tlog[old(base.tlogn) + j] == ref(old(tf.steps[j])))
 //@        && (result == base.DROP ==> k >= 1 && base.tres[old(base.tlogn) + k - 1] == 0)
-//@        && (result == base.PASS ==> k == len(tf.steps))
+//@        && (result == base.PASS ==> k == old(len(tf.steps)))
